@@ -32,6 +32,8 @@ type c18Env struct {
 	wd        *sim.World
 	gap       uint32
 	failAt    int64 // global event index to fail (0 = none)
+	failLen   int64 // number of consecutive calls that fail from failAt on (the repeated failing call)
+	fires     int64
 	counter   int64
 	fired     int32
 	apiActive int32
@@ -67,11 +69,13 @@ func (e *c18Env) hook(ev *sim.Event) error {
 		return nil
 	}
 	n := atomic.AddInt64(&e.counter, 1)
-	if e.failAt > 0 && n == e.failAt && atomic.CompareAndSwapInt32(&e.fired, 0, 1) {
-		atomic.StoreInt32(&e.hit, 1)
-		e.firedKind = ev.Kind + " " + ev.Bucket
-		if s, ok := e.stepTag.Load().(string); ok {
-			e.firedStep = s
+	if e.failAt > 0 && n >= e.failAt && n < e.failAt+e.failLen && atomic.LoadInt32(&e.fired) == 0 {
+		if atomic.AddInt64(&e.fires, 1) == 1 {
+			atomic.StoreInt32(&e.hit, 1)
+			e.firedKind = ev.Kind + " " + ev.Bucket
+			if s, ok := e.stepTag.Load().(string); ok {
+				e.firedStep = s
+			}
 		}
 		return sim.ErrInjected
 	}
@@ -92,22 +96,34 @@ func (e *c18Env) end(step string, start int64) {
 	}
 }
 
-// userOp runs an API operation; if it reports failure it is repeated (storage works again).
+// userOp runs an API operation; while it reports failure and a fault was injected during the
+// attempt it is repeated. A failure of an attempt during which storage worked is a violation.
 func (e *c18Env) userOp(step string, fn func() error) error {
 	start := e.begin(step)
 	atomic.StoreInt32(&e.apiActive, 1)
-	err := fn()
-	if err != nil {
-		e.logf("%s failed: %v -- repeating", step, err)
-		if err2 := fn(); err2 != nil {
-			atomic.StoreInt32(&e.apiActive, 0)
-			e.end(step, start)
-			return fmt.Errorf("violation: %s fails again after the storage fault is gone: %v (first failure: %v)", step, err2, err)
+	defer func() {
+		atomic.StoreInt32(&e.apiActive, 0)
+		e.end(step, start)
+	}()
+	var first error
+	for attempt := 0; attempt < 12; attempt++ {
+		before := atomic.LoadInt64(&e.fires)
+		err := fn()
+		if err == nil {
+			return nil
 		}
+		if first == nil {
+			first = err
+		}
+		if atomic.LoadInt64(&e.fires) == before {
+			if attempt == 0 {
+				return fmt.Errorf("violation: %s fails although no storage call of it failed: %v", step, err)
+			}
+			return fmt.Errorf("violation: %s fails again after the storage fault is gone: %v (first failure: %v)", step, err, first)
+		}
+		e.logf("%s failed: %v -- repeating", step, err)
 	}
-	atomic.StoreInt32(&e.apiActive, 0)
-	e.end(step, start)
-	return nil
+	return fmt.Errorf("violation: %s still fails after 12 attempts (first failure: %v)", step, first)
 }
 
 func (e *c18Env) settle(step string, start int64) error {
@@ -330,13 +346,13 @@ func (e *c18Env) scenario() error {
 	return nil
 }
 
-func c18Run(t *core.T, seed uint64, dir string, failAt int64, record bool) (*sim.Obs, *c18Env, error) {
+func c18Run(t *core.T, seed uint64, dir string, failAt, failLen int64, record bool) (*sim.Obs, *c18Env, error) {
 	sim.InitProcess(filepath.Join(filepath.Dir(t.Dir), "log"))
 	sim.ResetFatalEvents()
 	restoreConsensus()
 	consensus.CoinbaseMaturity = 3
 	defer restoreConsensus()
-	e := &c18Env{t: t, rs: core.NewRand(seed), gap: 20, failAt: failAt, mn: map[string]string{}, pass: map[string]string{}, ids: map[string]string{}}
+	e := &c18Env{t: t, rs: core.NewRand(seed), gap: 20, failAt: failAt, failLen: failLen, mn: map[string]string{}, pass: map[string]string{}, ids: map[string]string{}}
 	if record {
 		e.ranges = map[string][2]int64{}
 	}
@@ -352,7 +368,10 @@ func c18Run(t *core.T, seed uint64, dir string, failAt int64, record bool) (*sim
 	if err := w.Start(); err != nil {
 		return nil, e, fmt.Errorf("harness: start: %v", err)
 	}
-	e.wd = &sim.World{T: t, R: e.rs, N: n, W: w}
+	// NoDrop: a transaction the wallet only ever saw in a block that was abandoned later is known to
+	// the twin (as pending) and unknown to a run whose fault made it skip that block; the property
+	// speaks of blocks of the chain, so every such transaction is resolved on the new branch
+	e.wd = &sim.World{T: t, R: e.rs, N: n, W: w, NoDrop: true}
 	e.wd.StrangerPub()
 	w.DB.SetHook(e.hook)
 	serr := e.scenario()
@@ -384,8 +403,9 @@ func c18Run(t *core.T, seed uint64, dir string, failAt int64, record bool) (*sim
 }
 
 func c18Case(t *core.T, steps []string, maxPerStep int) {
+	thoroughTier := t.Tier == "thorough"
 	seed := t.R.Uint64()
-	twinObs, twin, err := c18Run(t, seed, filepath.Join(t.Dir, "twin"), 0, true)
+	twinObs, twin, err := c18Run(t, seed, filepath.Join(t.Dir, "twin"), 0, 1, true)
 	if err != nil {
 		if strings.HasPrefix(err.Error(), "inconclusive") {
 			t.Inconclusive("twin: " + err.Error())
@@ -400,6 +420,7 @@ func c18Case(t *core.T, steps []string, maxPerStep int) {
 	type job struct {
 		i    int64
 		step string
+		n    int64 // consecutive failing calls
 	}
 	var jobs []job
 	exhaustive := true
@@ -420,7 +441,7 @@ func c18Case(t *core.T, steps []string, maxPerStep int) {
 		}
 		if int(n) <= maxPerStep {
 			for i := r[0]; i <= r[1]; i++ {
-				jobs = append(jobs, job{i, st})
+				jobs = append(jobs, job{i, st, 1})
 			}
 		} else {
 			exhaustive = false
@@ -437,25 +458,34 @@ func c18Case(t *core.T, steps []string, maxPerStep int) {
 			}
 			sort.Slice(l, func(a, b int) bool { return l[a] < l[b] })
 			for _, i := range l {
-				jobs = append(jobs, job{i, st})
+				jobs = append(jobs, job{i, st, 1})
 			}
 		}
 		t.Observe("calls_per_step", fmt.Sprintf("%s=%d", strings.Fields(st)[0], n))
+	}
+	// the repeated failing call: the same indexes with 3 (thorough: also 2 and 6) consecutive failures;
+	// quick runs a seeded quarter of them
+	for _, j := range append([]job(nil), jobs...) {
+		if thoroughTier {
+			jobs = append(jobs, job{j.i, j.step, 2}, job{j.i, j.step, 3}, job{j.i, j.step, 6})
+		} else if t.R.Intn(4) == 0 {
+			jobs = append(jobs, job{j.i, j.step, 3})
+		}
 	}
 	for ji, j := range jobs {
 		if t.Failed() {
 			break
 		}
 		t.Eval(1)
-		obs, e, err := c18Run(t, seed, filepath.Join(t.Dir, fmt.Sprintf("run%d", ji)), j.i, false)
-		w := map[string]interface{}{"failed_call_index": j.i, "step_in_fault_free_run": j.step, "failed_call": e.firedKind, "step_when_fired": e.firedStep, "log": e.log, "world_ops_tail": tailStr(e.wd.Ops, 30)}
+		obs, e, err := c18Run(t, seed, filepath.Join(t.Dir, fmt.Sprintf("run%d", ji)), j.i, j.n, false)
+		w := map[string]interface{}{"failed_call_index": j.i, "consecutive_failures": j.n, "step_in_fault_free_run": j.step, "failed_call": e.firedKind, "step_when_fired": e.firedStep, "log": e.log, "world_ops_tail": tailStr(e.wd.Ops, 30)}
 		kind := strings.Fields(j.step)[0]
 		if err != nil {
 			if strings.HasPrefix(err.Error(), "inconclusive") {
 				t.Inconclusive(fmt.Sprintf("call %d (%s): %v", j.i, j.step, err))
 				continue
 			}
-			t.Violate("state-after-fault-differs:"+kind, fmt.Sprintf("storage call %d (%s, during '%s') failed once: %v", j.i, e.firedKind, j.step, err), w)
+			t.Violate("state-after-fault-differs:"+kind, fmt.Sprintf("storage call %d (%s, during '%s') failed (%d×): %v", j.i, e.firedKind, j.step, j.n, err), w)
 			continue
 		}
 		if atomic.LoadInt32(&e.hit) == 0 {
@@ -463,14 +493,15 @@ func c18Case(t *core.T, steps []string, maxPerStep int) {
 			continue
 		}
 		if strings.Join(e.addrs, ",") != strings.Join(twin.addrs, ",") {
-			t.Violate("address-index-skipped-or-duplicated", fmt.Sprintf("storage call %d (%s, during '%s') failed once: NewAddress sequence %v differs from the fault-free run %v", j.i, e.firedKind, j.step, shortAddrs(e.addrs), shortAddrs(twin.addrs)), w)
+			t.Violate("address-index-skipped-or-duplicated", fmt.Sprintf("storage call %d (%s, during '%s') failed (%d×): NewAddress sequence %v differs from the fault-free run %v", j.i, e.firedKind, j.step, j.n, shortAddrs(e.addrs), shortAddrs(twin.addrs)), w)
 			continue
 		}
 		if d := obs.Diff(twinObs); d != "" {
-			t.Violate("state-after-fault-differs:"+kind, fmt.Sprintf("storage call %d (%s, during '%s') failed once: final observation differs from the fault-free twin: %s", j.i, e.firedKind, j.step, d), w)
+			t.Violate("state-after-fault-differs:"+kind, fmt.Sprintf("storage call %d (%s, during '%s') failed (%d×): final observation differs from the fault-free twin: %s", j.i, e.firedKind, j.step, j.n, d), w)
 			continue
 		}
-		t.Nontrivial(fmt.Sprintf("%s|%d|%s", j.step, j.i, e.firedKind))
+		t.Nontrivial(fmt.Sprintf("%s|%d|%s|x%d", j.step, j.i, e.firedKind, j.n))
+		t.Count(fmt.Sprintf("runs_with_%d_consecutive_failures", j.n), 1)
 		t.Count("faults_"+kind, 1)
 		t.Observe("failed_call_kinds", strings.Fields(e.firedKind)[0])
 	}
@@ -500,13 +531,18 @@ func init() {
 		ID:    "C18",
 		Level: "fault_enumeration",
 		Rule: "case = one group of steps of a deterministic scenario (import of two wallets by mnemonic incl. their background import tasks, three NewAddress calls, nine blocks incl. two reorgs, CreateWallet, another NewAddress, RemoveWallet + background removal while blocks arrive, two flush blocks). A fault-free twin numbers every wallet-database call and maps it to its step; " +
-			"for the group's steps every call index (quick: all when ≤70 per step, else first/last four + seeded sample; thorough: all) is failed once without forwarding, user operations that report failure are repeated, handler/worker operations retry by themselves. " +
-			"Oracles: repetition succeeds; every NewAddress returns the twin's address; wallet list has exactly the expected wallets once; final observation == twin == ledger; no follower death. distinct_nontrivial = distinct (step, call index, call kind) runs in which the fault was actually hit",
+			"for the group's steps every call index (quick: all when ≤70 per step, else first/last four + seeded sample; thorough: all, in four scenarios per group) is failed once without forwarding, and again as a repeated failing call (3 consecutive calls from that index on for a seeded quarter of the indexes; thorough: 2, 3 and 6 for all); user operations that report failure are repeated while a fault was injected during the attempt, handler/worker operations retry by themselves. " +
+			"Oracles: an attempt during which no call failed succeeds; every NewAddress returns the twin's address; wallet list has exactly the expected wallets once; final observation == twin == ledger; no follower death. distinct_nontrivial = distinct (step, call index, call kind) runs in which the fault was actually hit",
 		Assumptions: []string{"a storage fault is an error returned by the database interface without performing the call (for commit: nothing written); real I/O errors that LevelDB latches until reopen are out of scope", "CreateWallet uses fresh entropy: only existence, uniqueness and usability of the created wallet are compared"},
 		CaseTimeout: 1500 * time.Second,
-		Cases:       func(tier string, seed int64) int { return len(c18Groups) },
+		Cases: func(tier string, seed int64) int {
+			if tier == "thorough" {
+				return 4 * len(c18Groups) // four scenarios (different seeds) per step group
+			}
+			return len(c18Groups)
+		},
 		Run: func(t *core.T) {
-			c18Case(t, c18Groups[t.Index], limits[t.Tier])
+			c18Case(t, c18Groups[t.Index%len(c18Groups)], limits[t.Tier])
 		},
 		Finish: func(m *core.Merged) {
 			all := true
